@@ -604,3 +604,25 @@ def merge_proofs(statuses):
         st['broken'] += s.get('broken', [])
         st['log'] += (s.get('log') or '')[-1500:]
     return st
+
+
+def replay_status(pid, fails):
+    """Exit status of a replay: failures that match a recorded known finding are announced as such and do not
+    count (same rule as in a check run); anything else makes the replay fail."""
+    known = load_known()
+    unknown = []
+    for f in fails or []:
+        k = match_known(pid, f, known) if isinstance(f, dict) else None
+        if k is not None:
+            print('KNOWN-FINDING: property=%s %s' % (pid, k.get('what', k.get('id'))))
+        else:
+            unknown.append(f)
+    return 1 if unknown else 0
+
+
+def proof_status_many(pairs):
+    """proof_status for several (family, property file) pairs, concurrently, merged into one status."""
+    from concurrent.futures import ThreadPoolExecutor
+    with ThreadPoolExecutor(max_workers=6) as ex:
+        sts = list(ex.map(lambda fp: proof_status(fp[0], fp[1]), pairs))
+    return merge_proofs(sts)
